@@ -266,6 +266,8 @@ def _segment_row(p: Path, elem: str, seg, atom_of):
             continue
         a = atom_of(t)
         if a is None:
+            a = atom_of(expand(t, evs))  # e.g. any(s.final for s in $cN) with $cN the visit of this element
+        if a is None:
             raise boolfn.Unrecognised(txt)
         if a in facts and facts[a] != pol:
             return None  # contradictory (infeasible) path
